@@ -98,23 +98,23 @@ type blockResult struct {
 }
 
 type child struct {
-	suite    *suite
-	thorough bool
-	seed     int64
-	journal  []byte // mmap: [0:8] block, [8:16] case, [16:24] phase
-	resume   int
-	skip     map[int]bool
-	out      *bufio.Writer
+	suite     *suite
+	thorough  bool
+	seed      int64
+	journal   []byte // mmap: [0:8] block, [8:16] case, [16:24] phase
+	resume    int
+	skip      map[int]bool
+	out       *bufio.Writer
 	sincePart int
-	only     int // -1 = all
-	describe bool // only produce the description of case `only`, run nothing
-	profile  bool // measure() profiles allocations instead of counting them
-	block    int
-	caseIdx  int
-	res      *blockResult
-	distinct map[[8]byte]struct{}
-	violIdx  map[string]*violRec
-	m0, m1   runtime.MemStats
+	only      int  // -1 = all
+	describe  bool // only produce the description of case `only`, run nothing
+	profile   bool // measure() profiles allocations instead of counting them
+	block     int
+	caseIdx   int
+	res       *blockResult
+	distinct  map[[8]byte]struct{}
+	violIdx   map[string]*violRec
+	m0, m1    runtime.MemStats
 }
 
 // begin starts the next case of the block: returns false if it is to be skipped
@@ -157,7 +157,10 @@ func (c *child) nontrivial(key string) {
 	c.distinct[report.KeyHash(c.suite.name+"|"+key)] = struct{}{}
 }
 
-func (c *child) wantSample() bool { return c.only >= 0 || len(c.res.Samples) < 2 }
+// wantSample: a couple of arbitrary (not the first) cases per result part.
+func (c *child) wantSample() bool {
+	return c.only >= 0 || (len(c.res.Samples) < 2 && c.caseIdx%97 == 41)
+}
 func (c *child) sample(v interface{}) {
 	if len(c.res.Samples) < 2 {
 		c.res.Samples = append(c.res.Samples, v)
@@ -198,7 +201,13 @@ func (c *child) measure(f func()) uint64 {
 	runtime.ReadMemStats(&c.m0)
 	f()
 	runtime.ReadMemStats(&c.m1)
-	return c.m1.TotalAlloc - c.m0.TotalAlloc
+	d := c.m1.TotalAlloc - c.m0.TotalAlloc
+	if d > 32<<20 {
+		// do not let the garbage of a big allocation count against the next cases'
+		// address space (the collector may lag behind a single-threaded child)
+		runtime.GC()
+	}
+	return d
 }
 
 func tierName(th bool) string {
@@ -413,6 +422,8 @@ func (pr *proc) readJournal() (block, cs int64) {
 	return int64(binary.LittleEndian.Uint64(b[0:])), int64(binary.LittleEndian.Uint64(b[8:]))
 }
 
+var oomRe = regexp.MustCompile(`cannot allocate ([0-9]+)-byte block`)
+
 var fatalRe = regexp.MustCompile(`(?m)^(fatal error: .*|runtime: .*|panic: .*|signal: .*)$`)
 
 // siteFromTrace extracts the first gocql frame (not a harness accessor) from a Go
@@ -582,6 +593,7 @@ func (p *parent) runSuite(s *suite, nproc int, deadline time.Time) {
 				resume := 0
 				restarts := 0
 				var skip []int
+				flaky := map[int]int{}
 				bt0 := time.Now()
 				dbg := func() {
 					if d := time.Since(bt0); os.Getenv("C05_DEBUG") != "" && d > time.Second {
@@ -643,8 +655,20 @@ func (p *parent) runSuite(s *suite, nproc int, deadline time.Time) {
 							s.name, b, jb, jc, timedOut, tail(stderr, 600))
 						break
 					}
+					if !p.attribute(s, b, int(jc), timedOut, stderr) {
+						// The death does not belong to the case (it does not die when run
+						// alone): the child's address space ran out on accumulated garbage.
+						// Run the rest of the block again from where results are safe.
+						flaky[int(jc)]++
+						if flaky[int(jc)] >= 3 {
+							p.r.Infra("%s: case %d:%d: child died there 3 times but never when the case is run alone: %s",
+								s.name, b, jc, tail(stderr, 400))
+							break
+						}
+						restarts++
+						continue
+					}
 					atomic.AddInt64(&p.deaths, 1)
-					p.attribute(s, b, int(jc), timedOut, stderr)
 					if s.deciding {
 						p.r.AddCounts(1, nil) // the case itself was evaluated
 					}
@@ -747,7 +771,7 @@ func describeCase(s *suite, b, cs int, thorough bool) (desc string) {
 // attribute turns the death (or hang) of a child inside a journalled case into a
 // finding. A death is re-run once in a fresh child to make sure it belongs to the
 // case and not to the machine; a hang must reproduce three times.
-func (p *parent) attribute(s *suite, b, cs int, hang bool, stderr string) {
+func (p *parent) attribute(s *suite, b, cs int, hang bool, stderr string) (attributed bool) {
 	replay := map[string]interface{}{
 		"cmd": fmt.Sprintf("worker -only %s:%d:%d -tier %s", s.name, b, cs, tierName(p.thorough)),
 	}
@@ -755,16 +779,23 @@ func (p *parent) attribute(s *suite, b, cs int, hang bool, stderr string) {
 	if hang {
 		reruns = 3
 	} else if strings.Contains(stderr, "fatal error: ") && siteFromTrace(mainGoroutine(stderr)) != "unknown-site" {
-		// a runtime fatal raised under a driver function while the journalled case was
-		// running: attributable as it stands
+		// A runtime fatal raised under a driver function while the journalled case was
+		// running is attributable as it stands — for an out-of-memory death only if the
+		// single failed request was itself a sizeable part of the address space (a small
+		// request failing means the space was used up before this case).
 		reruns = 0
+		if m := oomRe.FindStringSubmatch(stderr); m != nil {
+			var n int64
+			fmt.Sscan(m[1], &n)
+			if n < int64(s.memKiB)*1024/4 {
+				reruns = 1
+			}
+		}
 	}
 	for i := 0; i < reruns; i++ {
 		died, hung, se, _ := p.rerunOne(s, b, cs)
 		if hang && !hung || !hang && !died {
-			p.r.Infra("%s: case %d:%d: child %s once but not when re-run alone (not attributed): %s",
-				s.name, b, cs, map[bool]string{true: "hung", false: "died"}[hang], tail(stderr, 400))
-			return
+			return false
 		}
 		if !hang {
 			stderr = se
@@ -773,7 +804,7 @@ func (p *parent) attribute(s *suite, b, cs int, hang bool, stderr string) {
 	if hang {
 		p.r.Violation(fmt.Sprintf("hang:%s:block%d", s.name, b),
 			fmt.Sprintf("case %d:%d did not return within the (generous) time limit in 3 separate re-runs; infrastructure-attributed", b, cs), replay)
-		return
+		return true
 	}
 	what := "fatal"
 	if m := fatalRe.FindString(stderr); m != "" {
@@ -804,10 +835,11 @@ func (p *parent) attribute(s *suite, b, cs int, hang bool, stderr string) {
 	first := p.violCnt[key] == 1
 	p.mu.Unlock()
 	if !first {
-		return
+		return true
 	}
 	replay["case"] = describeCase(s, b, cs, p.thorough)
 	p.r.Violation(key, fmt.Sprintf("child process died in %s case %d:%d (%v): %s\n%s", s.name, b, cs, replay["case"], what, head(mainGoroutine(stderr), 1500)), replay)
+	return true
 }
 
 // rerunOne runs a single case in a fresh child.
